@@ -18,7 +18,8 @@ from vlib import core
 PID = "C15"
 ENTRIES = {"c15chunks": ("Modes.Entry", "entry_c15chunks"),
            "c15nm": ("Modes.Entry", "entry_c15nm"),
-           "c15lru": ("Modes.Entry", "entry_c15lru")}
+           "c15lru": ("Modes.Entry", "entry_c15lru"),
+           "c15modes": ("Modes.Toy", "entry_c15modes")}
 TRUSTED = [
     "modelled, not verified: brush-interactive completeness.rs (needs_more_input_locked, ends_with_line_continuation), "
     "minimal/input_backend.rs (read_program_from), interactive_shell.rs (execute_line line offset), interp.rs (Program::execute), "
@@ -153,8 +154,16 @@ class G:
         return segs
 
 
-def prog_text(segs):
-    return "".join(l + "\n" for s in segs for l in s)
+def prog_text(segs, strip=False):
+    t = "".join(l + "\n" for s in segs for l in s)
+    return t[:-1] if strip and t.endswith("\n") else t
+
+
+def prog_chunks(segs, strip=False):
+    ch = ["".join(l + "\n" for l in s) for s in segs]
+    if strip and ch and ch[-1].endswith("\n"):
+        ch[-1] = ch[-1][:-1]
+    return ch
 
 
 FIXED_PROGRAMS = [
@@ -185,7 +194,7 @@ def run_modes(shell_argv, text, workdir, tag):
     def go(mode, args, stdin=None):
         try:
             p = subprocess.run(shell_argv + args, cwd=workdir, env=env, stdin=stdin or subprocess.DEVNULL,
-                               stdout=subprocess.PIPE, stderr=subprocess.PIPE, timeout=20)
+                               stdout=subprocess.PIPE, stderr=subprocess.PIPE, timeout=8)
             res[mode] = (p.returncode, p.stdout.decode("utf-8", "replace"), p.stderr.decode("utf-8", "replace"))
         except subprocess.TimeoutExpired:
             res[mode] = ("timeout", "", "")
@@ -213,7 +222,7 @@ def eval_at_line(shell_argv, text, lead, workdir, tag):
         f.write(":\n" * lead + 'eval "$1"\n')
     try:
         p = subprocess.run(shell_argv + [path, text], cwd=workdir, env=_env(workdir), stdin=subprocess.DEVNULL,
-                           stdout=subprocess.PIPE, stderr=subprocess.PIPE, timeout=20)
+                           stdout=subprocess.PIPE, stderr=subprocess.PIPE, timeout=8)
         r = (p.returncode, p.stdout.decode("utf-8", "replace"))
     except subprocess.TimeoutExpired:
         r = ("timeout", "")
@@ -239,7 +248,7 @@ def truncation(t):
 
 def bash_n(text, workdir):
     p = subprocess.run([BASH, "--norc", "--noprofile", "-n"], input=text.encode(), cwd=workdir, env=_env(workdir),
-                       stdout=subprocess.PIPE, stderr=subprocess.PIPE, timeout=20)
+                       stdout=subprocess.PIPE, stderr=subprocess.PIPE, timeout=8)
     err = p.stderr.decode("utf-8", "replace")
     if p.returncode == 0:
         return "complete"
@@ -256,20 +265,23 @@ def lineno_tokens(s):
 # --------------------------------------------------------------------------------------------
 
 def gen_programs(ctx, n):
-    progs = [(p, ["fixed"]) for p in FIXED_PROGRAMS]
+    """-> list of (segments, construct kinds, final newline stripped?)"""
+    progs = [(p, ["fixed"], False) for p in FIXED_PROGRAMS] + [(FIXED_PROGRAMS[0], ["fixed"], True)]
     for _ in range(n):
         g = G(ctx.rng)
         segs = g.program()
         if sum(len(s) for s in segs) > 30:
             continue
-        progs.append((segs, g.kinds))
+        # one program in six ends without a newline (not after a blank line: that would be a different program)
+        strip = ctx.rng.random() < 0.17 and segs[-1] != [""]
+        progs.append((segs, g.kinds, strip))
     return progs
 
 
 def check_chunks_and_prefixes(ctx, progs, workdir, res):
     """code chunks vs model chunks vs generator segments; model needs_more on all prefixes vs oracle"""
     opts = "e"
-    texts = [prog_text(s) for s, _ in progs]
+    texts = [prog_text(s, st) for s, _, st in progs]
     impl_chunks = ctx.impl("c15chunks", [[opts, t] for t in texts])
     # verdict classes of all segments lines[s:k] (+ truncations) and of all prefixes
     want = {}
@@ -308,12 +320,12 @@ def check_chunks_and_prefixes(ctx, progs, workdir, res):
     res["model_cases"]["c15chunks"] = mcases
     res["model_out"]["c15chunks"] = model
     nm_cases, nm_meta = [], []
-    for idx, ((segs, kinds), t, il, ml) in enumerate(zip(progs, texts, impl_chunks, model)):
+    for idx, ((segs, kinds, strip), t, il, ml) in enumerate(zip(progs, texts, impl_chunks, model)):
         code = core.dec_line(il) if not il.startswith(("PANIC", "DIED", "TIMEOUT")) else [il]
         mf = core.dec_line(ml)
         mchunks = [mf[i + 1] for i in range(0, len(mf) - 2, 3)] if len(mf) % 3 == 0 else ["?" + ml]
         moffs = [mf[i] for i in range(0, len(mf) - 2, 3)] if len(mf) % 3 == 0 else []
-        expect = ["".join(l + "\n" for l in s) for s in segs]
+        expect = prog_chunks(segs, strip)
         res["evaluations"] += 1
         if code != mchunks:
             res["model_mismatches"].append({"what": "chunks handed over by MinimalInputBackend differ from the model",
@@ -395,8 +407,8 @@ def check_chunks_and_prefixes(ctx, progs, workdir, res):
 
 def check_concat(ctx, progs, res):
     cases, meta = [], []
-    for segs, _ in progs:
-        chunks = ["".join(l + "\n" for l in s) for s in segs]
+    for segs, _, strip in progs:
+        chunks = prog_chunks(segs, strip)
         for k in range(1, len(chunks)):
             t1, t2 = chunks[k - 1], "".join(chunks[k:])
             cases.append(["e", t1, t2])
@@ -414,8 +426,8 @@ def check_concat(ctx, progs, res):
 
 def check_modes(ctx, progs, workdir, res):
     def one(i):
-        segs, kinds = progs[i]
-        t = prog_text(segs)
+        segs, kinds, strip = progs[i]
+        t = prog_text(segs, strip)
         br = run_modes(brush_argv(ctx), t, workdir, "b%d" % i)
         ba = run_modes(BASH_ARGV, t, workdir, "a%d" % i)
         return i, t, br, ba
@@ -456,7 +468,7 @@ def check_eval_lines(ctx, progs, workdir, res):
     sample = progs[: (16 if ctx.quick else 120)]
 
     def one(i):
-        t = prog_text(sample[i][0])
+        t = prog_text(sample[i][0], sample[i][2])
         lead = 1 + i % 3
         return t, lead, eval_at_line(brush_argv(ctx), t, lead, workdir, "e%d" % i), eval_at_line(BASH_ARGV, t, lead, workdir, "f%d" % i)
     with ThreadPoolExecutor(8) as ex:
@@ -503,6 +515,121 @@ def eval_shift_class(br, brf, ba, baf):
     if all(d == 0 for d in d_brush) and len(set(d for d in d_bash if d != 0)) == 1:
         return ("known", sorted(set(d_brush)), sorted(set(d_bash)))
     return ("new", sorted(set(d_brush)), sorted(set(d_bash)))
+
+
+
+# --------------------------------------------------------------------------------------------
+# the front-end model on a small command language vs the real binary (entry c15modes)
+
+def toy_program(rng):
+    """-> list of (lines, cmds) ; cmds = (kind, a, b, line relative to the segment)"""
+    segs = []
+    n = [0]
+
+    def i():
+        n[0] += 1
+        return n[0]
+    if rng.random() < 0.5:
+        segs.append((["trap 'echo bye:$?' EXIT"], [("trap", "", "", 0)]))
+    for _ in range(rng.randrange(1, 8)):
+        k = rng.choice("PPKHIABCSA")
+        j = i()
+        if k == "P":
+            segs.append((["echo p%d:$LINENO" % j], [("print", "p%d" % j, "", 1)]))
+        elif k == "K":
+            segs.append((["echo k%d:$LINENO \\" % j, "  more"], [("print", "k%d" % j, " more", 1)]))
+        elif k == "H":
+            segs.append((["cat <<E%d" % j, "h%d:$LINENO" % j, "E%d" % j], [("print", "h%d" % j, "", 1)]))
+        elif k == "I":
+            segs.append((["if true", "then", "  echo i%d:$LINENO" % j, "fi"], [("print", "i%d" % j, "", 3)]))
+        elif k == "A":
+            segs.append((["true &&", "  echo a%d:$LINENO" % j], [("print", "a%d" % j, "", 2)]))
+        elif k == "B":
+            segs.append(([""], []))
+        elif k == "C":
+            segs.append((["# comment %d 'q" % j], []))
+        elif k == "S":
+            segs.append((["(exit %d)" % (j % 5 + 1)], [("status", str(j % 5 + 1), "", 0)]))
+    x = rng.random()
+    if x < 0.3:
+        code = rng.choice([0, 4, 9])
+        segs.append((["exit %d" % code], [("exit", str(code), "", 0)]))
+        if rng.random() < 0.6:
+            segs.append((["echo p99:$LINENO"], [("print", "p99", "", 1)]))
+    return segs
+
+
+def check_toy_modes(ctx, workdir, res, want_classes):
+    rng = ctx.rng
+    progs = [toy_program(rng) for _ in range(70 if ctx.quick else 600)]
+    texts = ["".join(l + "\n" for ls, _ in p for l in ls) for p in progs]
+    # verdict classes for the segments of these programs
+    need = {}
+    per = []
+    for t in texts:
+        ls = lines_of(t)
+        xs = set()
+        for a in range(len(ls)):
+            for b in range(a + 1, len(ls) + 1):
+                x = "".join(ls[a:b])
+                xs.add(x)
+                tr = truncation(x)
+                if tr is not None:
+                    xs.add(tr)
+        per.append(sorted(xs))
+        for x in xs:
+            if x not in want_classes:
+                need[x] = None
+    keys = sorted(need)
+    if keys:
+        cls = ctx.impl("c15cls", [["e", x] for x in keys])
+        for x, c in zip(keys, cls):
+            want_classes[x] = core.dec_line(c)[0] if not c.startswith(("PANIC", "DIED", "TIMEOUT")) else c
+    cases, meta = [], []
+    for p, t, xs in zip(progs, texts, per):
+        ls = lines_of(t)
+        ctab = []
+        for x in xs:
+            ctab += [x, want_classes[x]]
+        # parse table: the whole text (absolute lines) and every segment (relative lines)
+        ptab = {}
+        whole, line0 = [], 0
+        for seg_lines, cmds in p:
+            seg_text = "".join(l + "\n" for l in seg_lines)
+            ptab[seg_text] = [(k, a, b, ln) for (k, a, b, ln) in cmds]
+            whole += [(k, a, b, ln + line0 if k == "print" else ln) for (k, a, b, ln) in cmds]
+            line0 += len(seg_lines)
+        ptab[t] = whole
+        pf = [str(len(ptab))]
+        for x, cmds in ptab.items():
+            pf += [x, str(len(cmds))]
+            for (k, a, b, ln) in cmds:
+                pf += [k, a, b, str(ln)]
+        for mode in ("file", "c", "source", "eval", "stdin"):
+            cases.append([mode, str(len(ls))] + ls + [str(len(xs))] + ctab + pf)
+            meta.append((t, mode))
+    model = ctx.model("c15modes", cases)
+    res["model_cases"]["c15modes"] = cases
+    res["model_out"]["c15modes"] = model
+
+    def one(i):
+        return run_modes(brush_argv(ctx), texts[i], workdir, "t%d" % i)
+    with ThreadPoolExecutor(8) as ex:
+        real = list(ex.map(one, range(len(texts))))
+    real_of = {}
+    for t, r in zip(texts, real):
+        real_of[t] = r
+    for (t, mode), ml in zip(meta, model):
+        res["evaluations"] += 1
+        mf = core.dec_line(ml)
+        r = real_of[t][mode]
+        code = r[1].split("\n")[:-1] + ["|", str(r[0])] if r[1].endswith("\n") or r[1] == "" else r[1].split("\n") + ["|", str(r[0])]
+        if mf != code:
+            res["model_mismatches"].append({"what": "front-end model and the real binary differ", "mode": mode, "program": t,
+                                            "code": code, "model": mf, "stderr": r[2][:200]})
+        if mode == "stdin" and any(":" in x for x in code):
+            res["nontrivial"].add("toy:" + t)
+    res["dist_modes"]["toy_programs"] = len(texts)
 
 
 # --------------------------------------------------------------------------------------------
@@ -585,6 +712,40 @@ def check_purity(ctx, res):
         res["nontrivial"].add("purity:%s:%s" % k)
 
 
+
+def check_regex_purity(ctx, workdir, res):
+    """REGEX_CACHE (key: pattern, case-insensitive, multiline) through the real binary: the same
+    regex / glob pattern under alternating nocasematch in one process vs one process per test"""
+    items = [("s", "[[ AB =~ ^ab$ ]]"), ("u", "[[ AB =~ ^ab$ ]]"), ("s", "[[ AB == a? ]]"), ("u", "[[ AB == a? ]]"),
+             ("u", "[[ ab =~ ^ab$ ]]"), ("s", "[[ $'a\\nB' == a*b ]]"), ("u", "[[ $'a\\nB' == a*b ]]"),
+             ("s", "case Ab in ab) true;; *) false;; esac"), ("u", "case Ab in ab) true;; *) false;; esac")]
+
+    def prog(seq):
+        return "".join("shopt -%s nocasematch; %s; echo $?\n" % it for it in seq)
+
+    def run1(text):
+        p = subprocess.run(brush_argv(ctx) + ["-c", text], cwd=workdir, env=_env(workdir), stdin=subprocess.DEVNULL,
+                           stdout=subprocess.PIPE, stderr=subprocess.PIPE, timeout=8)
+        return p.stdout.decode().split()
+    fresh = {it: run1(prog([it])) for it in items}
+    seqs = list(itertools.permutations(items, 3))
+    if ctx.quick:
+        seqs = ctx.rng.sample(seqs, 120)
+    seqs.append(tuple(items) * 2)
+    with ThreadPoolExecutor(8) as ex:
+        outs = list(ex.map(lambda sq: run1(prog(sq)), seqs))
+    for sq, o in zip(seqs, outs):
+        res["evaluations"] += 1
+        exp = [fresh[it][0] if fresh[it] else "?" for it in sq]
+        if o != exp:
+            res["spec_violations"].append({"input": {"program": prog(sq), "mode": "-c"},
+                                           "why": "pattern tests under alternating nocasematch in one process give %r, one process per test gives %r" % (o, exp)})
+    sens = sum(1 for a in items for b in items if a[1] == b[1] and a[0] != b[0] and fresh[a] != fresh[b]) // 2
+    res["dist_purity"]["regex_sequences"] = len(seqs)
+    res["dist_purity"]["regex_option_sensitive_tests"] = sens
+    if sens < 3:
+        raise core.CheckBroken("regex purity check lost its option-sensitive tests")
+
 # --------------------------------------------------------------------------------------------
 # LRU store
 
@@ -621,7 +782,7 @@ def new_res():
 
 def crosscheck(ctx, res):
     total = agree = 0
-    for entry in ("c15lru", "c15nm", "c15chunks"):
+    for entry in ("c15lru", "c15nm", "c15chunks", "c15modes"):
         cases, out = res["model_cases"].get(entry, []), res["model_out"].get(entry, [])
         if not cases:
             continue
@@ -639,7 +800,7 @@ def crosscheck(ctx, res):
 
 def finish(ctx, res, progs):
     kinds = {}
-    for _, ks in progs:
+    for _, ks, _ in progs:
         for k in ks:
             kinds[k] = kinds.get(k, 0) + 1
     out = {
@@ -655,7 +816,7 @@ def finish(ctx, res, progs):
                 "64 distinct keys between repeats, random sequences. LRU: all key sequences up to length 5 (7 thorough) over 3-4 keys "
                 "for capacities 1-3 plus random ones up to capacity 64. non-trivial = a program whose run printed at least one $LINENO "
                 "probe (distinct by text), or a (api, text) pair whose parse result depends on the options (distinct by pair)",
-        "samples": [{"program": prog_text(p[0])} for p in progs[5:8]] + [{"program": prog_text(progs[0][0])}],
+        "samples": [{"program": prog_text(p[0], p[2])} for p in progs[6:9]] + [{"program": prog_text(progs[0][0])}],
         "distribution": {"constructs": kinds, "parser_verdicts": res["dist_class"], "prefix_decisions": res["dist_prefix"],
                          "modes": res["dist_modes"], "purity": res.get("dist_purity"), "lru": res.get("dist_lru")},
         "model_mismatches": res["model_mismatches"],
@@ -670,11 +831,13 @@ def run(ctx):
     res = new_res()
     workdir = tempfile.mkdtemp(prefix="c15-", dir=core.SCRATCH if os.path.isdir(core.SCRATCH) else "/var/tmp")
     try:
-        progs = gen_programs(ctx, 160 if ctx.quick else 1500)
+        progs = gen_programs(ctx, 240 if ctx.quick else 1500)
         check_lru(ctx, res)
         check_purity(ctx, res)
-        check_chunks_and_prefixes(ctx, progs, workdir, res)
+        check_regex_purity(ctx, workdir, res)
+        texts, want = check_chunks_and_prefixes(ctx, progs, workdir, res)
         check_concat(ctx, progs, res)
+        check_toy_modes(ctx, workdir, res, want)
         check_modes(ctx, progs, workdir, res)
         check_eval_lines(ctx, progs, workdir, res)
         out = finish(ctx, res, progs)
@@ -699,11 +862,11 @@ def search(ctx, res):
             r2["notes"].append(str(e))
         check_modes(ctx, progs, workdir, r2)
         # chunks against the generator's boundaries (needs no model)
-        texts = [prog_text(s) for s, _ in progs]
+        texts = [prog_text(s, st) for s, _, st in progs]
         impl_chunks = ctx.impl("c15chunks", [["e", t] for t in texts])
-        for (segs, _), t, il in zip(progs, texts, impl_chunks):
+        for (segs, _, strip), t, il in zip(progs, texts, impl_chunks):
             code = core.dec_line(il) if not il.startswith(("PANIC", "DIED", "TIMEOUT")) else [il]
-            expect = ["".join(l + "\n" for l in s) for s in segs]
+            expect = prog_chunks(segs, strip)
             r2["evaluations"] += 1
             if code != expect:
                 b, acc = [], ""
